@@ -5,6 +5,7 @@ import (
 	"fmt"
 	"math/rand"
 	"os"
+	"time"
 )
 
 type Ctx struct {
@@ -15,6 +16,15 @@ type Ctx struct {
 	Rep    *Report
 	Replay string
 	Work   string
+	W      *Worker
+}
+
+// Impl runs one implementation operation in the sandboxed worker.
+func (c *Ctx) Impl(op string, args ...string) Obs {
+	if c.W == nil {
+		c.W = &Worker{}
+	}
+	return c.W.Call(10*time.Second, op, args...)
 }
 
 func (c *Ctx) Quick() bool { return c.Tier != "thorough" }
@@ -65,6 +75,10 @@ func main() {
 		c.Rep = NewReport(*prop, *tier, *seed, ck.rule)
 		ck.run(c)
 		drv.Close()
+		if c.W != nil {
+			c.Rep.Extra["worker_restarts"] = c.W.Restarts
+			c.W.stop()
+		}
 		c.Rep.OracleQueries = drv.Queries
 		if err := c.Rep.Write(*out); err != nil {
 			fmt.Fprintln(os.Stderr, "report:", err)
